@@ -129,3 +129,28 @@ VARIANTS += [
       "            if cur_left < left <= next_left:", "silent", "",
       "re-assigning the same value"),
 ]
+
+VARIANTS += [
+    V("lowest-skyline-area-not-reset", O + "bin_count_and_lowest_skyline.py",
+      "    min_area_under_skyline: int = bin_size\n\n"
+      "    for use_bin in range(1, bins + 1):\n"
+      "        cur_left: int = 0\n"
+      "        area_under_skyline: int = 0\n",
+      "    min_area_under_skyline: int = bin_size\n"
+      "    area_under_skyline: int = 0\n\n"
+      "    for use_bin in range(1, bins + 1):\n"
+      "        cur_left: int = 0\n", "fire", "D2.6",
+      "seed C02-lowest-skyline-area-not-reset-per-bin: the accumulator "
+      "hoisted out of the bin loop"),
+    V("lowest-skyline-position-not-reset",
+      O + "bin_count_and_lowest_skyline.py",
+      "    min_area_under_skyline: int = bin_size\n\n"
+      "    for use_bin in range(1, bins + 1):\n"
+      "        cur_left: int = 0\n",
+      "    min_area_under_skyline: int = bin_size\n"
+      "    cur_left: int = 0\n\n"
+      "    for use_bin in range(1, bins + 1):\n", "fire", "D2.6",
+      "the sweep position hoisted out of the bin loop: only the first bin "
+      "is swept"),
+]
+
